@@ -219,4 +219,14 @@ static Verdict enumerate(int tier, int shard, int nshards, Fields *failing) {
   return Verdict::pass();
 }
 
-const Harness vf::HARNESS = {"C16", gen, check, enumerate, nullptr};
+static Fields from_bytes(const uint8_t *d, size_t n) {
+  Fields f;
+  unsigned fl = n ? d[0] : 0;
+  std::string t;
+  for (size_t i = 1; i < n && i < 300; i++) if (d[i]) t += (char)d[i];
+  f.set("text", t);
+  f.seti("s2p", fl & 1); f.seti("nb", (fl >> 1) & 1); f.seti("p2s", (fl >> 2) & 1); f.seti("bc", (fl >> 3) & 3);
+  return f;
+}
+
+const Harness vf::HARNESS = {"C16", gen, check, enumerate, nullptr, from_bytes};
